@@ -128,7 +128,7 @@ class Ctx:
             if len(stmt) > 300:
                 stmt = stmt[:300] + "..."
             loc = func.loc(node) if not isinstance(func, str) else (
-                "%s:%d" % (module.rel, node.lineno) if module is not None else "")
+                "%s:%d" % (module.rel, getattr(node, "orig_lineno", node.lineno)) if module is not None else "")
         f = Finding(rule, fname, stmt, message, loc, extra)
         f.clause = _clause_id(what or message)
         if not (os.environ.get("PDSA_NO_STRUCTURAL") or os.environ.get("PDSA_RAW")) and (rule, f.clause) in _structural():
